@@ -61,6 +61,11 @@ def run(tier, seed):
         sp = SPELL[sc][0]
         texts += ["3 m %s" % sp, "3 s %s" % sp, "12 degC -> %s m" % sp, "12 degC -> m %s" % sp, "12 degC -> 2 %s" % sp,
                   "1 m -> %s" % sp, "1 kg %s -> K" % sp, "(2 K) %s" % sp, "300 K -> %s meter" % sp, "5 %s -> %s hex" % (sp, sp)]
+    # an operand that already carries a dimension is refused for EVERY ordered pair of scales (36 pairs x 4 operand shapes)
+    for a in scales:
+        for b in scales:
+            sa, sb = rng.choice(SPELL[a]), rng.choice(SPELL[b])
+            texts += ["5 m %s -> %s" % (sa, sb), "(2 K) %s -> %s" % (sa, sb), "1|3 kg/s %s -> %s" % (sa, sb), "-7 radian %s -> %s" % (sa, sb)]
     # a scale operator ANYWHERE inside a compound target (the specification refuses all of them: Query.HasDegree)
     for sc in scales:
         sp = rng.choice(SPELL[sc])
